@@ -8,8 +8,18 @@
 include!(concat!(env!("LIBP2P_VERIF"), "/shims/tracing_off.rs"));
 use super::state::verif::c56::{any_state, code, is_reset, monotone, read_open, write_open};
 
+/// which payloads the mock channel may deliver (the poll_read contract is split
+/// by this to keep each CBMC query small; together the three cases are all cases)
+#[derive(Clone, Copy, PartialEq, Eq)]
+pub(crate) enum Payloads {
+    Any,
+    NoData,
+    DataOnly,
+}
+
 pub(crate) struct MockIo {
     budget: u8,
+    payloads: Payloads,
     pub(crate) data_sent: bool,
     pub(crate) flag_sent: Option<i32>,
     pub(crate) delivered: u8,
@@ -71,10 +81,12 @@ fn io_poll_next(io: &mut MockIo, _cx: &mut Context<'_>) -> Poll<io::Result<Optio
                 _ => Some(Flag::Reset),
             };
             let m: u8 = kani::any();
-            let msg = match m % 3 {
-                0 => None,
-                1 => Some(Vec::new()),
-                _ => Some(vec![7u8]),
+            let msg = match (io.payloads, m % 3) {
+                (Payloads::DataOnly, _) => Some(vec![7u8]),
+                (_, 0) => None,
+                (_, 1) => Some(Vec::new()),
+                (Payloads::NoData, _) => None,
+                (Payloads::Any, _) => Some(vec![7u8]),
             };
             Poll::Ready(Ok(Some((flag, msg))))
         }
@@ -101,12 +113,20 @@ fn wf(s: &FragStream) -> bool {
 }
 
 fn any_stream(budget: u8) -> (FragStream, Option<oneshot::Receiver<GracefullyClosed>>) {
+    any_stream_with(budget, None, Payloads::Any)
+}
+
+fn any_stream_with(
+    budget: u8,
+    buffered: Option<bool>,
+    payloads: Payloads,
+) -> (FragStream, Option<oneshot::Receiver<GracefullyClosed>>) {
     let state = any_state();
     let (tx, rx) = oneshot::channel();
     let (notifier, rx) = if kani::any() { (Some(tx), Some(rx)) } else { (None, None) };
-    let read_buffer = if kani::any() { Bytes::from_static(b"z") } else { Bytes::new() };
+    let read_buffer = if buffered.unwrap_or_else(|| kani::any()) { Bytes::from_static(b"z") } else { Bytes::new() };
     let s = FragStream {
-        io: MockIo { budget, data_sent: false, flag_sent: None, delivered: 0 },
+        io: MockIo { budget, payloads, data_sent: false, flag_sent: None, delivered: 0 },
         state,
         read_buffer,
         drop_notifier: notifier,
@@ -125,11 +145,28 @@ fn is_reset_err<T>(r: &Poll<io::Result<T>>) -> bool {
     matches!(r, Poll::Ready(Err(e)) if e.kind() == io::ErrorKind::ConnectionReset)
 }
 
-tracing_off! {
-#[kani::proof]
-#[kani::unwind(3)]
-fn stream_poll_read_contract() {
-    let (mut s, _rx) = any_stream(1);
+/// ASSUMED dependency contract: `Bytes::from(Vec<u8>)` yields a buffer with the Vec's
+/// content.  The extraction rewrites the one statement `*read_buffer = msg.into();`
+/// of poll_read to call this function (reported under dropped_by_extraction; Kani's
+/// stubbing cannot name the generic `From` impl).  The real conversion (into_boxed_slice -> realloc with a length the
+/// solver sees as symbolic after the Poll/Result/Option merge) exhausted 64 GB in
+/// CBMC's propositional reduction; the mock channel only ever delivers [] or [7].
+fn bytes_from_vec(v: Vec<u8>) -> Bytes {
+    let b = if v.is_empty() {
+        Bytes::new()
+    } else {
+        assert!(v.len() == 1 && v[0] == 7u8);
+        Bytes::from_static(&[7u8])
+    };
+    std::mem::forget(v);
+    b
+}
+
+/// the poll_read contract, for one of three disjoint and jointly exhaustive cases
+/// (bytes already buffered / nothing buffered and the channel delivers no data
+/// payload / nothing buffered and every delivered frame carries a data byte)
+fn poll_read_contract_case(buffered: bool, budget: u8, payloads: Payloads) {
+    let (mut s, _rx) = any_stream_with(budget, Some(buffered), payloads);
     let s0 = s.state;
     let had_buffered = !s.read_buffer.is_empty();
     let mut buf = [0u8; 2];
@@ -154,6 +191,32 @@ fn stream_poll_read_contract() {
     }
     // poll_read never writes
     assert!(!s.io.data_sent && s.io.flag_sent.is_none());
+    // the harness is over: skip the drop glue of Bytes / io::Error (not part of poll_read)
+    std::mem::forget(r);
+    std::mem::forget(s);
+}
+
+tracing_off! {
+#[kani::proof]
+#[kani::unwind(3)]
+fn stream_poll_read_contract_buffered() {
+    poll_read_contract_case(true, 1, Payloads::Any);
+}
+}
+
+tracing_off! {
+#[kani::proof]
+#[kani::unwind(3)]
+fn stream_poll_read_contract_no_data() {
+    poll_read_contract_case(false, 1, Payloads::NoData);
+}
+}
+
+tracing_off! {
+#[kani::proof]
+#[kani::unwind(3)]
+fn stream_poll_read_contract_data() {
+    poll_read_contract_case(false, 1, Payloads::DataOnly);
 }
 }
 
